@@ -1359,6 +1359,16 @@ fn run_all(cases: &[Case], threads: usize) -> Vec<Row> {
 				set_chain(0);
 				let pools = Pools::new();
 				for (c, r) in cs.iter().zip(rs.iter_mut()) {
+					// (when asked to, say which case is about to be decoded: if a decoder takes the
+					// whole process down — an abort or a fault below Rust, which catch_unwind cannot
+					// contain — the last line names the input)
+					if let Ok(path) = std::env::var("VERIF_C09_TRACE") {
+						use std::io::Write;
+						if let Ok(mut f) = std::fs::OpenOptions::new().create(true).append(true).open(&path) {
+							let _ = writeln!(f, "{}", case_json(c));
+							let _ = f.sync_data();
+						}
+					}
 					*r = Some(run_case(c, &pools));
 				}
 			}));
